@@ -23,6 +23,8 @@ def lens(tier):
 
 def tasks(tier):
     ts = []
+    if tier == 'quick':
+        ts.append(Task('verifHarness_C06_formula', [255]))  # the largest payload (the longest signed stream)
     for n in lens(tier):
         ts.append(Task('verifHarness_C06_formula', [n]))
         for kind in (0, 1, 2, 3):
@@ -39,6 +41,8 @@ def tasks(tier):
             ts.append(Task('verifHarness_C06_writemessage', [shape, unset], {'x25_uf': True}))
     for n in (0, 1, 31, 32, 33, 64):
         ts.append(Task('verifHarness_C06_key', [n]))
+    for n in (0, 2):
+        ts.append(Task('verifHarness_C06_replayed_trailer', [n]))
     # (d) the node hands its keys to each channel's reader and writer
     for version in (1, 2):
         for ik in (0, 1):
@@ -48,12 +52,13 @@ def tasks(tier):
 
 
 def required_reach(tier):
-    return ['C06/a', 'C06/b', 'C09/S', 'C06/c', 'C06/d', 'C06/e']
+    return ['C06/a', 'C06/b', 'C09/S', 'C06/c', 'C06/d', 'C06/e', 'C06/f']
 
 
 def bounds(tier):
     return {'payload_lengths': lens(tier),
             'symbolic': 'all 32 key bytes, every header byte, id, payload bytes, checksum, link id, 48-bit timestamp, carried signature',
+            'signature_checked_every_time': 'a correctly signed frame, then a frame with the same 13-byte signature block whose sequence number / system id / checksum / first payload byte differ: refused (payload 0, 2)',
             'key_value': 'NewV2Key on slices of 0,1,31,32,33,64 symbolic bytes: copies (zero padded / cut at 32) and stays independent of the argument afterwards',
             'hash': 'SHA-256 is an uninterpreted absorb chain: unsat means for every hash function the implementation feeds exactly '
                     'the spec byte stream, keeps the first six digest bytes and compares all six'}
